@@ -11,7 +11,7 @@ from .values import (
     to_real, to_z3, zand, zimplies, zite, znot, zor,
 )
 
-KNOWN_MODULES = {"np", "numpy", "time", "warnings", "textwrap", "threading", "itertools", "math", "json", "pickle",
+KNOWN_MODULES = {"queue", "np", "numpy", "time", "warnings", "textwrap", "threading", "itertools", "math", "json", "pickle",
                  "pd", "h5py", "sps", "sm", "op", "xgb", "kernels", "multiprocessing", "contextlib", "sqlite3",
                  "gzip", "io", "gym"}
 BUILTIN_EXC = {"ValueError", "TypeError", "KeyError", "IndexError", "AttributeError", "RuntimeError",
